@@ -395,6 +395,16 @@ def index_rule(ctx):
         if not (b.id.startswith('de::') or b.id.startswith('<de::')) or b.j['kind'] == 'closure':
             continue
         for bb, t in b.calls():
+            if call_matches(t, ['Index::index', 'Index<I>>::index']) and not b.is_cleanup(bb) and len(t.get('args', [])) >= 2:
+                # direct indexing by a decoded discriminant: an index outside the schema must be Err, not a panic
+                io_ = origin(b, t['args'][1])
+                # (fine once a `.get(discriminant)` on the table has answered Some on this path)
+                checked = any('Some' in names and any(call_matches(c, ['slice::<impl [T]>::get']) for c in oo.calls)
+                              for names, adt, oo, d_, oth in option_guards(b, bb))
+                if any('read_discriminant' in a[1] for a in io_.atoms if a[0] == 'call') and not checked:
+                    ctx.ob('INDEX', '%s/direct-index' % fn_label(b), False, short_loc(t.get('span')),
+                           'a table is indexed directly by the decoded discriminant (%s): an index outside the schema panics instead of returning Err' % io_.describe()[:100])
+                continue
             if not call_matches(t, ['slice::<impl [T]>::get']):
                 continue
             recv = origin(b, t['args'][0])
